@@ -156,7 +156,7 @@ impl Interp {
             created: vec![],
         };
         if it.opts.nkeys == 0 {
-            it.opts.nkeys = KEYS.len();
+            it.opts.nkeys = if p.nkeys > 0 { p.nkeys as usize } else { KEYS.len() };
         }
         if p.shared {
             let mut base = AutoCommit::new_with_encoding(enc).with_actor(ActorId::from(vec![9u8, 0]));
